@@ -320,6 +320,15 @@ def check(prop, tier, seed):
     forb = grep_forbidden()
     if forb:
         broken.append({'kind': 'forbidden-construct', 'detail': forb[:10]})
+    # thorough tier: the toolchain's independent re-checker replays the compiled declarations of the property's modules
+    # (and of everything they import) in a fresh kernel
+    rechecked = None
+    if tier == 'thorough' and build_ok:
+        mods = ['Props.' + m for m in spec.get('modules', []) if os.path.exists(os.path.join(LEAN, 'Props', m + '.lean'))]
+        rc, out = sh(['lake', 'env', 'leanchecker'] + mods, cwd=LEAN, timeout=7200)
+        rechecked = {'cmd': 'lake env leanchecker ' + ' '.join(mods), 'ok': rc == 0, 'output_tail': out[-400:]}
+        if rc != 0:
+            broken.append({'kind': 'leanchecker', 'detail': out[-1500:]})
     # a structural change (not a mere constant) of a function this property depends on: the hand-written model may be stale,
     # so the correspondence and the search run on their thorough streams even in the quick tier
     try:
@@ -386,6 +395,7 @@ def check(prop, tier, seed):
         'libm_identical': all(c['libm_ulp_mismatches'] == 0 for c in corr),
         'builds': builds, 'escalated_to_thorough_streams_because_of': escal,
         'partial': spec.get('partial', []),
+        'independent_recheck': rechecked if rechecked is not None else 'leanchecker runs in the thorough tier only',
     }
     if obligations == 0:
         for k in ('obligations', 'discharged'):
